@@ -38,9 +38,17 @@ var TL2Assumptions = []string{
 	"TL2 reference: `n*[T]` with a constant n (directly or through a template argument) is a fixed-size array [n]T, with a run-time n (field) it is a variable array whose count is taken from the TL2 bytes",
 	"TL2 reference: vector<Bool> is an array of one-byte bool (the primer's migration note says vector<Bool> becomes vector<bit>; the generator under test keeps bytes; the reference follows the generator here and the divergence is recorded in NOTES.md)",
 	"TL2 reference, optimal writer: a non-optional field is omitted iff its value is the type's default (numbers with all-zero bytes, empty string, false, empty object body, array of length 0, Maybe nothing); arrays of non-zero length are always written in full; objects at top level, as array elements and as optional fields are written even when empty (`00`)",
-	"TL2 reference, tolerant reader: bytes of an array body after the last element are skipped like in objects; an explicit variant number 0 is accepted; an unmasked `true` field whose bit is set is skipped as an opaque sized value; a variable array whose count exceeds the remaining body is rejected (every element occupies at least one byte)",
+	"TL2 reference, tolerant reader: bytes of an array body after the last element are skipped like in objects; an explicit variant number 0 is accepted; a field whose type is an empty struct (unmasked `true`, a user-declared struct without fields, optional or not) and whose bit is set is skipped as an opaque sized value (its interior is not interpreted); a variable array whose count exceeds the remaining body is rejected (every element occupies at least one byte)",
 	"TL2 reference: varlen numbers above 2^63-1 are not defined (inputs containing them where they would be interpreted are excluded from accept-set comparison)",
 }
+
+// TL2-native schemas (TL2 source text, uni.UniverseTL2N) reuse the model with three conventions: a field whose Mask is
+// TL2Optional is an optional field `name?:T` (presence = the hidden mask bit only); a field named "_" is a reserved field
+// `_:T` (keeps its slot and bit, is never written, is read and discarded when its bit is set - primer, Структуры); KBit is
+// the TL2 type `bit` (as a field: the mask bit is the value; as an array element: 8 values per byte, LSB first).
+const KBit Kind = 100
+
+var TL2Optional = &Mask{Src: Nat{Kind: NConst, V: 1}, Bit: 0}
 
 var (
 	ErrT2EOF       = errors.New("tl2: unexpected end of input")
@@ -182,6 +190,8 @@ type T2Plan struct {
 	Elems   []*T2Plan
 	Fixed   int     // PArr: the fixed size, -1 for variable arrays
 	ElemDef *T2Plan // PArr: plan of a default element (for AddElem)
+	IsBits  bool    // PArr of bit: Bits instead of Elems, packed 8 per byte
+	Bits    []bool
 	Path    string  // where in the value this node sits (for reports)
 	K       T2Knobs
 }
@@ -226,7 +236,7 @@ func planEmpty(p *T2Plan) bool {
 		}
 		return true
 	}
-	return len(p.Elems) == 0
+	return len(p.Elems) == 0 && len(p.Bits) == 0
 }
 
 // planOf builds the optimal plan of v:t.
@@ -271,6 +281,13 @@ func planOf(t *Type, v *Value, env *t2Env, path string) *T2Plan {
 				p.Fixed = int(n.v)
 			}
 		}
+		if (t.Kind == KVector || t.Kind == KTuple) && t.Elem.Kind == KBit {
+			p.IsBits = true
+			for _, e := range v.Elems {
+				p.Bits = append(p.Bits, e.B)
+			}
+			return p
+		}
 		for i, e := range v.Elems {
 			ep := fmt.Sprintf("%s[%d]", path, i)
 			if t.Kind == KDict || t.Kind == KDictAny {
@@ -297,6 +314,10 @@ func planObj(d *StructDef, fs []*Value, variant int, env *t2Env, path string) *T
 		}
 		fp := path + "." + f.Name
 		switch {
+		case f.Name == "_": // reserved field: slot kept, never written
+			p.Slots = append(p.Slots, T2Slot{})
+		case f.T.Kind == KBit: // TL2 bit
+			p.Slots = append(p.Slots, T2Slot{Set: fv != nil && fv.B})
 		case f.T.Kind == KTrue && !f.T.Boxed && f.Mask != nil: // bit
 			p.Slots = append(p.Slots, T2Slot{Set: fv != nil})
 		case f.Mask != nil: // optional: presence bit, value written raw
@@ -374,6 +395,31 @@ func (s *t2ser) node(p *T2Plan, _ bool) {
 	case PStr:
 		s.sized(p, func(b *t2ser) { b.w = append(b.w, p.Raw...) })
 	case PArr:
+		if p.IsBits {
+			s.sized(p, func(b *t2ser) {
+				bits := p.Bits
+				if p.K.DropLast && len(bits) > 0 {
+					bits = bits[:len(bits)-1]
+				}
+				if p.K.AddElem {
+					bits = append(append([]bool{}, bits...), false)
+				}
+				if len(bits) == 0 && !p.K.ZeroCount {
+					return
+				}
+				b.w = AppendVarlen(b.w, uint64(len(bits)), p.K.CountForm)
+				for i := 0; i < len(bits); i += 8 {
+					var x byte
+					for j := 0; j < 8 && i+j < len(bits); j++ {
+						if bits[i+j] {
+							x |= 1 << uint(j)
+						}
+					}
+					b.w = append(b.w, x)
+				}
+			})
+			return
+		}
 		s.sized(p, func(b *t2ser) {
 			elems := p.Elems
 			if p.K.DropLast && len(elems) > 0 {
@@ -500,7 +546,7 @@ func t2Default(t *Type, env *t2Env) *Value {
 func t2DefaultFields(d *StructDef, env *t2Env) []*Value {
 	fs := make([]*Value, len(d.Fields))
 	for i := range d.Fields {
-		if d.Fields[i].Mask == nil {
+		if d.Fields[i].Mask == nil && d.Fields[i].Name != "_" {
 			fs[i] = t2Default(d.Fields[i].T, env)
 		}
 	}
@@ -609,6 +655,21 @@ func decT2(r []byte, t *Type, env *t2Env) (*Value, []byte, error) {
 				return nil, r, err
 			}
 		}
+		if (t.Kind == KVector || t.Kind == KTuple) && t.Elem.Kind == KBit {
+			if fixedN >= 0 && count > uint64(fixedN) {
+				count = uint64(fixedN)
+			}
+			if (count+7)/8 > uint64(len(body)) {
+				return nil, r, ErrT2Count
+			}
+			for i := uint64(0); i < count; i++ {
+				v.Elems = append(v.Elems, &Value{B: body[i/8]>>(i%8)&1 != 0})
+			}
+			for fixedN >= 0 && len(v.Elems) < fixedN && len(v.Elems) < 64 {
+				v.Elems = append(v.Elems, &Value{})
+			}
+			return v, rest, nil
+		}
 		if fixedN >= 0 {
 			if count > uint64(fixedN) {
 				count = uint64(fixedN) // surplus elements are ignored
@@ -680,17 +741,29 @@ func decObject(r []byte, variants []*StructDef, env *t2Env) (variant int, fields
 		}
 		set := mask>>uint((i+1)%8)&1 != 0
 		switch {
+		case f.Name == "_":
+			if set { // reserved field: its type is known, the value is read and discarded
+				if _, body, err = decT2(body, f.T, env); err != nil {
+					return 0, nil, r, err
+				}
+			}
+		case f.T.Kind == KBit:
+			fields[i] = &Value{B: set}
 		case f.T.Kind == KTrue && !f.T.Boxed && f.Mask != nil:
 			if set {
 				fields[i] = &Value{}
 			}
-		case f.T.Kind == KTrue && !f.T.Boxed:
-			if set { // opaque sized value, skipped
+		case f.T.Kind == KTrue && !f.T.Boxed, f.T.Kind == KStruct && len(f.T.Def.Fields) == 0:
+			// a field whose type is an empty struct carries no information: when its bit is set the value is skipped as an
+			// opaque sized value (listed assumption)
+			if set {
 				if _, body, err = sizedBody(body); err != nil {
 					return 0, nil, r, err
 				}
 			}
-			fields[i] = &Value{}
+			if f.Mask == nil || set {
+				fields[i] = &Value{}
+			}
 		case set:
 			if fields[i], body, err = decT2(body, f.T, env); err != nil {
 				return 0, nil, r, err
